@@ -126,7 +126,7 @@ def e10c(ctx: Ctx):
 # decoders
 
 
-@rule("D10", "COMPLEMENTARY-GUARDS: two tests of one control value against one threshold leave no value unhandled", ["C16", "C17", "C19"], floor=1)
+@rule("D10", "COMPLEMENTARY-GUARDS: two tests of one control value against one threshold leave no value unhandled", ["C16", "C17", "C19", "C18"], floor=1)
 def d10(ctx: Ctx):
     D = decoderfacts(ctx)
     n = 0
@@ -304,7 +304,44 @@ def _norm(s: str) -> str:
     return re.sub(r"\s+", "", s.lower())
 
 
-@rule("L8", "HELPER-GUARDS: ecb_string rejects only negative counts / an empty pattern, starts from the empty string and appends `count` times the first character", ["C20", "C03"], floor=3, soft=True)
+def _propagated(L, p) -> List[str]:
+    """Normalised statement texts with single-assignment locals replaced by their defining expression
+    (`istart = fix(index)` ... `to istart` reads as `to fix(index)`): the shape rules below look through temporaries."""
+    stmts = list(L.all_stmts(p))
+    params = {x[0] for x in p.params}
+    counts: Dict[str, int] = {}
+    for s_ in stmts:
+        if s_.kind in ("assign", "read") and s_.target:
+            counts[s_.target] = counts.get(s_.target, 0) + 1
+        if s_.kind == "for":
+            m_ = re.match(r"(?i)\s*for\s+(\w+)", s_.text)
+            if m_:
+                counts[m_.group(1).lower()] = counts.get(m_.group(1).lower(), 0) + 2
+        if s_.kind == "run":
+            for a_ in s_.run_args:
+                if re.fullmatch(r"\s*[A-Za-z_]\w*\$?\s*", a_):
+                    counts[a_.strip().lower()] = counts.get(a_.strip().lower(), 0) + 2  # may be written by the callee
+    defs: Dict[str, str] = {}
+    out: List[str] = []
+    top = set(id(s_) for s_ in p.stmts)
+
+    def subst(text: str) -> str:
+        for name, rhs in defs.items():
+            text = re.sub(rf"(?i)(?<![\w$.]){re.escape(name)}(?![\w$(])", lambda _m: rhs, text)
+        return text
+
+    for s_ in stmts:
+        out.append(_norm(subst(s_.text)))
+        if s_.kind == "assign" and id(s_) in top and s_.target not in params and counts.get(s_.target) == 1 and s_.target in p.vars:
+            m_ = re.match(r"(?is)^[^=]*?:?=(.*)$", s_.text)
+            if m_:
+                rhs = subst(m_.group(1).strip())
+                simple = re.fullmatch(r"[\w$.]+|[\w$]+\([^()]*(\([^()]*\)[^()]*)*\)", rhs) is not None
+                defs[s_.target] = rhs if simple else f"({rhs})"
+    return out
+
+
+@rule("L8", "HELPER-GUARDS: ecb_string rejects only negative counts / an empty pattern, starts from the empty string and appends `count` times the first character", ["C20", "C03", "C01"], floor=3, soft=True)
 def l8(ctx: Ctx):
     L = b09lib(ctx)
     if "ecb_string" not in L.procs:
@@ -314,7 +351,7 @@ def l8(ctx: Ctx):
         raise IdiomNotFound("ecb_string(count, str, strout) signature not recognised")
     count, src, out = (x[0] for x in p.params)
     stmts = [s for s in L.all_stmts(p)]
-    texts = [_norm(s.text) for s in stmts]
+    texts = _propagated(L, p)
     # guard
     g = next((s for s in stmts if s.kind == "if" and "error" in " ".join(_norm(x.text) for x in stmts[stmts.index(s) : stmts.index(s) + 3])), None)
     if g is None:
@@ -347,7 +384,7 @@ def l8(ctx: Ctx):
     # ecb_instr / read filter shape facts that are decidable from text: covered by L7
 
 
-@rule("L8b", "INSTR-SHAPE: ecb_instr starts from 0, scans every position from the start index to the last possible one, compares LEN(pattern) characters and keeps the first match", ["C20", "C03"], floor=4, soft=True)
+@rule("L8b", "INSTR-SHAPE: ecb_instr starts from 0, scans every position from the start index to the last possible one, compares LEN(pattern) characters and keeps the first match", ["C20", "C03", "C01"], floor=4, soft=True)
 def l8b(ctx: Ctx):
     L = b09lib(ctx)
     if "ecb_instr" not in L.procs:
@@ -357,7 +394,7 @@ def l8b(ctx: Ctx):
         raise IdiomNotFound("ecb_instr(index, str0, str1, outindex) signature not recognised")
     idx, hay, pat, out = (re.escape(x[0]) for x in p.params)
     stmts = list(L.all_stmts(p))
-    texts = [_norm(s.text) for s in stmts]
+    texts = _propagated(L, p)
     fi = next((i for i, t in enumerate(texts) if t.startswith("for")), None)
     if fi is None:
         raise IdiomNotFound("FOR loop not recognised")
@@ -398,7 +435,7 @@ def l8c(ctx: Ctx):
         raise IdiomNotFound("ecb_int(v, retval) signature not recognised")
     v, out = (re.escape(x[0]) for x in p.params)
     stmts = list(L.all_stmts(p))
-    texts = [_norm(s.text) for s in stmts]
+    texts = _propagated(L, p)
     gi = next((i for i, t in enumerate(texts) if re.fullmatch(rf"if{v}(>=|>)0(\.0*)?then", t)), None)
     if gi is None or "else" not in texts[gi:]:
         raise IdiomNotFound("`if v >= 0 then ... else ...` not recognised")
